@@ -27,6 +27,9 @@ type pairCase struct {
 	ParamA string // parameter folder for A ("" = shipped)
 	ParamB string
 	Meta   map[string]interface{}
+	// WarmA: extra arguments of a batch line of the same project that runs before A in the SAME session (nil: A is the
+	// first run of its session)
+	WarmA []string
 }
 
 // readRecords parses the result files of a run into records of text fields; date columns become day numbers.
@@ -87,7 +90,13 @@ func runPairs(c *core.Ctx, worker string, pairs []*pairCase, trace string) {
 			c.Machineryf("cannot write project: %v", err)
 			return
 		}
-		args := []string{"run", "-root", root, "-out", rc.Trace, "-skip", "day.top,day.weather,day.gw,day.inputs,day.evatra,day.steps,sub.pre,sub.water,sub.crop,nitro.mineral,nitro.move,sub.nitro,day.denit,day.end,run.config", "--"}
+		args := []string{"run", "-root", root, "-out", rc.Trace}
+		if s == 0 && pc.WarmA != nil {
+			wp := *p
+			wp.ExtraArgs = pc.WarmA
+			args = append(args, "-warm-root", root, "-warm-args", strings.Join(wp.Args(), "|"))
+		}
+		args = append(args, "-skip", "day.top,day.weather,day.gw,day.inputs,day.evatra,day.steps,sub.pre,sub.water,sub.crop,nitro.mineral,nitro.move,sub.nitro,day.denit,day.end,run.config", "--")
 		args = append(args, p.Args()...)
 		out, code, to := core.Run(root, nil, 10*time.Minute, nil, worker, args...)
 		rc.Exit, rc.TimedOut, rc.Stderr = code, to, out
@@ -450,6 +459,19 @@ func checkC18(c *core.Ctx) {
 				bi := clone(base, fmt.Sprintf("oj%d", idx))
 				pairs = append(pairs, &pairCase{Name: ai.Name, What: fmt.Sprintf("out-of-range override %s=%s (plus a valid one) vs no override, crop %s", key, sp.invalid, crop), A: ai, B: bi, ParamA: ymlParams, ParamB: ymlParams,
 					Meta: map[string]interface{}{"crop": crop, "key": key, "value": sp.invalid, "invalid": true}})
+				// the lines of a calibration batch address the same crop file with varying values in ONE session: what a line
+				// with a valid value left behind must not let the out-of-range value of the next line through ...
+				as := clone(base, fmt.Sprintf("os%d", idx))
+				as.ExtraArgs = ai.ExtraArgs
+				pairs = append(pairs, &pairCase{Name: as.Name, What: fmt.Sprintf("out-of-range override %s=%s after a line with the valid %s=%s in the same session vs no override, crop %s", key, sp.invalid, key, val, crop),
+					A: as, B: clone(base, fmt.Sprintf("ot%d", idx)), ParamA: ymlParams, ParamB: ymlParams, WarmA: a.ExtraArgs,
+					Meta: map[string]interface{}{"crop": crop, "key": key, "value": sp.invalid, "invalid": true, "session": "valid-then-invalid"}})
+				// ... and a rejected line must not make the next line's valid value disappear
+				av := clone(base, fmt.Sprintf("ou%d", idx))
+				av.ExtraArgs = a.ExtraArgs
+				pairs = append(pairs, &pairCase{Name: av.Name, What: fmt.Sprintf("override %s=%s after a line with the out-of-range %s=%s in the same session vs edited YAML file, crop %s", key, val, key, sp.invalid, crop),
+					A: av, B: clone(b, fmt.Sprintf("ov%d", idx)), ParamA: ymlParams, ParamB: edited, WarmA: ai.ExtraArgs,
+					Meta: map[string]interface{}{"crop": crop, "key": key, "value": val, "session": "invalid-then-valid"}})
 			}
 		}
 	}
